@@ -247,6 +247,12 @@ func (c *realClient) Do(req *http.Request) (*http.Response, error) {
 	call := simhttp.CallOf(req.Context())
 	if call != nil {
 		call.EditURL(req)
+		if call.K.DoGivesUp {
+			if req.Body != nil {
+				_ = req.Body.Close()
+			}
+			return nil, &url.Error{Op: "Post", URL: req.URL.String(), Err: errors.New("net/http: request canceled (Client.Timeout exceeded while awaiting headers)")}
+		}
 		if call.K.DoErr != nil {
 			// nothing answers at that address
 			if req.Body != nil {
